@@ -175,30 +175,10 @@ def Dev.read (d : Dev) (addr : Int) (len : Nat) : Option Bytes :=
 def Dev.writable (d : Dev) (addr : Int) (len : Nat) : Bool :=
   d.inRange addr len && !(decide (addr.toNat < d.roHi) && decide (d.roLo < addr.toNat + len))
 
-def isNaN64 (n : Nat) : Bool := (n / 2 ^ 52) % 2 ^ 11 == 2047 && n % 2 ^ 52 != 0
-def isNaN32 (n : Nat) : Bool := (n / 2 ^ 23) % 2 ^ 8 == 255 && n % 2 ^ 23 != 0
-
-/-- A quirk of the harness's device (a legitimate `impl Device`): a 4- or 8-byte write
-whose little- or big-endian reading is an IEEE NaN is stored as the canonical quiet
-NaN of that reading.  NaN payloads produced by host floating-point arithmetic are
-the one thing the executable model (Lean `Float`) cannot reproduce bit for bit; this
-keeps them out of the device image and the log on both sides. -/
-def canonWrite (data : Bytes) : Bytes :=
-  if data.length = 8 then
-    if isNaN64 (fromLE data) then toLE 8 0x7ff8000000000000
-    else if isNaN64 (fromBE data) then toBE 8 0x7ff8000000000000
-    else data
-  else if data.length = 4 then
-    if isNaN32 (fromLE data) then toLE 4 0x7fc00000
-    else if isNaN32 (fromBE data) then toBE 4 0x7fc00000
-    else data
-  else data
-
 /-- `Device::write_mem` -/
 def Dev.write (d : Dev) (addr : Int) (data : Bytes) : Option Dev :=
   if d.writable addr data.length then
-    some { d with mem := d.mem.take addr.toNat ++ canonWrite data ++
-                         d.mem.drop (addr.toNat + data.length) }
+    some { d with mem := d.mem.take addr.toNat ++ data ++ d.mem.drop (addr.toNat + data.length) }
   else none
 
 /-- What node evaluation can observe and change: value store + device. -/
@@ -793,8 +773,8 @@ def portWrite (port : NodeId) (address : Int) (data : Bytes) : M F Unit :=
     if chunk then M.panic
     else fun s =>
       match s.dev.write address data with
-      | some d => (.ok (), { s with dev := d }, [.write address (canonWrite data) true])
-      | none => (.err .device, s, [.write address (canonWrite data) false])
+      | some d => (.ok (), { s with dev := d }, [.write address data true])
+      | none => (.err .device, s, [.write address data false])
   | _ => M.err .invalidNode
 
 /-- `RegisterBase::read_and_cache` (no cache) with a buffer of `bufLen` bytes -/
